@@ -199,6 +199,72 @@ def runTestKind (k : RunKind) (c : Chain) (s : Store) (body : List Stmt) : TestR
   | .separate => { runTest c s body with store := s }
   | .ignored => { store := s, failed := false, overflow := false, done := 0, pre := [], post := [] }
 
+/-! ## changes of the chain WHILE the registry runs (`TestRegistry::runAllTests`)
+
+`runAllTests` passes `firstPlugin_` — read afresh for every test — to `runOneTest`; inside
+`runOneTestInCurrentProcess` that head pointer is used for the pre walk and, after the body, for the
+post walk, which follows the LIVE `next_` pointers.  A scripted test makes at most one change from its
+body (after its redirections, before it ends) and at most one from the post action of a designated
+plugin. -/
+
+inductive Mut
+  | none
+  | install (p : Plugin)        -- `TestRegistry::installPlugin` of an object that is not linked
+  | remove (name : String)      -- `TestRegistry::removePluginByName`
+deriving Repr, DecidableEq, Inhabited
+
+def applyMut : Mut → Chain → Chain
+  | .none, c => c
+  -- the scripted body installs only objects that are not linked (a linked one would make a cycle)
+  | .install p, c => if c.any (fun q => q.id == p.id) then c else install c p
+  | .remove name, c => regRemove name c
+
+/-- The chain that the post walk of a test visits when the test started with chain `c` and its BODY
+    made the change: the walk starts at the head object captured when the test started.
+    * install: the new plugin sits in front of the captured head — not visited;
+    * remove of the captured head: `firstPlugin_` moves on, the object keeps its `next_` — the walk
+      still visits it and everything behind it;
+    * remove of any other plugin: its predecessor's `next_` skips it — not visited any more. -/
+def postChainAfterBody (c : Chain) : Mut → Chain
+  | .remove name =>
+    match c with
+    | [] => []
+    | h :: rest => if h.name = name then h :: rest else regRemove name (h :: rest)
+  | _ => c
+
+structure ScriptedTest where
+  body      : List Stmt
+  bodyMut   : Mut               -- carried out after the redirections unless one of them was refused
+  postActor : Nat               -- id of the plugin whose post action makes `postMut`
+  postMut   : Mut
+
+/-- is the designated plugin among those whose post action runs? -/
+def actorActs (pc : Chain) (actor : Nat) : Bool := pc.any (fun p => p.id == actor && p.enabled)
+
+def effectiveBodyMut (s : Store) (t : ScriptedTest) : Mut :=
+  if (runBody s 0 t.body).overflow then .none else t.bodyMut
+
+/-- one test of the registry loop, started with chain `c`: what it shows and the chain it leaves.
+    All frames of the post recursion exist before the first post action runs, so a change made
+    FROM a post action does not alter who sees this test's post action. -/
+def runScripted (c : Chain) (s : Store) (t : ScriptedTest) : TestResult × Chain :=
+  ({ store := postStore (postChainAfterBody c (effectiveBodyMut s t)) (runBody s 0 t.body).store,
+     failed := (runBody s 0 t.body).failed || preFails c,
+     overflow := (runBody s 0 t.body).overflow,
+     done := (runBody s 0 t.body).done,
+     pre := runAllPre c,
+     post := runAllPost (postChainAfterBody c (effectiveBodyMut s t)) },
+   if actorActs (postChainAfterBody c (effectiveBodyMut s t)) t.postActor
+   then applyMut t.postMut (applyMut (effectiveBodyMut s t) c)
+   else applyMut (effectiveBodyMut s t) c)
+
+/-- `TestRegistry::runAllTests`: every test gets the chain as it is when the test starts -/
+def runAllTestsReg (c : Chain) (s : Store) : List ScriptedTest → List TestResult × Chain × Store
+  | [] => ([], c, s)
+  | t :: rest =>
+    ((runScripted c s t).1 :: (runAllTestsReg (runScripted c s t).2 (runScripted c s t).1.store rest).1,
+     (runAllTestsReg (runScripted c s t).2 (runScripted c s t).1.store rest).2)
+
 def runTests (c : Chain) (s : Store) : List (List Stmt) → Store
   | [] => s
   | b :: rest => runTests c (runTest c s b).store rest
